@@ -203,6 +203,27 @@ Definition set_props_node (s : store) (id : Z) (ps : props) : store :=
 Definition set_props_edge (s : store) (id : Z) (ps : props) : store :=
   fold_left (fun s kv => st_set_edge_prop s id (fst kv) (snd kv)) ps s.
 
+(** [GrafeoDB::delete_node] first deletes the node's incident edges through [delete_edge]
+    (each logged as an ordinary DeleteEdge record): [edges_from(id, Outgoing)] then [edges_to(id)],
+    each in the order the adjacency lists hold them (creation order for the small degrees of the
+    correspondence run; a self-loop is listed twice, its second deletion is a no-op) *)
+Definition incident_edges (s : store) (id : Z) : list Z :=
+  map fst (filter (fun kv => e_src (snd kv) =? id) (s_edges s))
+  ++ map fst (filter (fun kv => e_dst (snd kv) =? id) (s_edges s)).
+Fixpoint delete_edges (s : store) (es : list Z) : store * list record :=
+  match es with
+  | [] => (s, [])
+  | e :: r => let '(s1, b) := st_delete_edge s e in
+              let '(s2, rs) := delete_edges s1 r in
+              (s2, if b then DeleteEdge e :: rs else rs)
+  end.
+(** [store.get_node(id).is_some()] *)
+Definition node_visible (s : store) (id : Z) : bool :=
+  match aget Z.eqb id (s_nodes s) with
+  | Some n => visible (n_created n) (n_deleted n) (s_epoch s)
+  | None => false
+  end.
+
 (** effect of a graph operation on store and transaction manager, the records it appends to
     the log, and its result *)
 Definition op_effect (s : store) (t : tm) (o : op) : store * tm * list record * out :=
@@ -213,7 +234,8 @@ Definition op_effect (s : store) (t : tm) (o : op) : store * tm * list record * 
       let '(s1, id) := st_create_node s ls (s_epoch s) in
       (set_props_node s1 id ps, t, CreateNode id ls :: map (fun kv => SetNodeProperty id (fst kv) (snd kv)) ps, OutId id)
   | ODeleteNode id =>
-      let '(s1, b) := st_delete_node s id in (s1, t, if b then [DeleteNode id] else [], OutBool b)
+      let '(s0, ers) := if node_visible s id then delete_edges s (incident_edges s id) else (s, []) in
+      let '(s1, b) := st_delete_node s0 id in (s1, t, ers ++ (if b then [DeleteNode id] else []), OutBool b)
   | OSetNodeProp id k v => (st_set_node_prop s id k v, t, [SetNodeProperty id k v], OutUnit)
   | OAddLabel id l =>
       let '(s1, b) := st_add_label s id l in (s1, t, if b then [AddNodeLabel id l] else [], OutBool b)
